@@ -1,9 +1,9 @@
 package main
 
 import (
-	"sort"
 	"fmt"
 	"go/token"
+	"sort"
 
 	"golang.org/x/tools/go/ssa"
 )
